@@ -30,6 +30,10 @@ TEMPLATES = {
     "ignore-block": ("{% for copyright_line in copyright_lines %}\n{{ copyright_line }}\n{% endfor %}\n\n"
                      "{% for expression in spdx_expressions %}\nSPDX-License-Identifier: {{ expression }}\n{% endfor %}\n\n"
                      "REUSE-IgnoreStart\nPart of Foo. Copyright is held by the contributors, see AUTHORS.\nREUSE-IgnoreEnd\n"),
+    # pre-commented as one C block comment (the comment terminator may then sit inside a value)
+    "cblock.commented": ("/*\n{% for copyright_line in copyright_lines %}\n * {{ copyright_line }}\n{% endfor %}\n"
+                         "{% for contributor_line in contributor_lines %}\n * SPDX-FileContributor: {{ contributor_line }}\n{% endfor %}\n *\n"
+                         "{% for expression in spdx_expressions %}\n * SPDX-License-Identifier: {{ expression }}\n{% endfor %}\n */\n"),
     # templates that cannot be loaded or rendered at all
     "broken-syntax": "{% for x in %}\n", "broken-unclosed": "{% for c in copyright_lines %}\n{{ c }}\n", "broken-filter": "{{ copyright_lines | nosuchfilter }}\n",
     "broken-undefined": "{{ nosuch.attr }}\n", "broken-div0": "{{ 1 // 0 }}\n", "broken-include": "{% include 'nope.jinja2' %}\n",
